@@ -36,6 +36,7 @@ def units():
 
 
 META = dict(
+    technique='CBMC 6.11 function contracts (dfcc): sequential specification + ghost lock discipline (every guarded field accessed only while its mutex is held)',
     level="proof",
     level_text="Every member function of TransactionalBuffer<int> and TransactionalValue<int> is extracted with std::mutex/lock_guard as a ghost lock and every read or write of a field declared guarded_by (buffer; queuedValue, newValue) preceded by the obligation 'the guarding mutex is held' (lock discipline); lock_guard's destructor is placed after the return value has been evaluated. Under the lock the sequential specs are proved: push_back appends one element, consume hands over the whole batch and leaves the buffer empty, size/empty read under the lock, assignment queues + raises the flag, update returns true exactly when it installs the queued value and clears the flag; the mutex is free on return.",
     level_note="From 'every access to the shared fields happens under the one mutex' + the sequential specs, the statement's no-loss/no-duplication/order/torn-state clauses and data-race freedom follow for all interleavings by the lock-linearisation argument, which is a trusted meta-theorem here, not a proof. currentValue is consumer-private by the documented usage. std::vector is an owner model without element values (push order of elements is not tracked).",
